@@ -170,7 +170,7 @@ func (it *Interp) visibleWhen(kind, obj string, cond func() bool) {
 	t := s.cur
 	t.pending = opDesc{kind, obj, it.curPos}
 	t.parked = true
-	if cond != nil && !cond() {
+	if cond != nil { // kept even if it holds now: another goroutine may disable the operation before this one is picked
 		t.cond = cond
 		t.waitDesc = kind
 		t.waitPos = it.curPos
@@ -208,6 +208,11 @@ func (it *Interp) dporExec(t *Thread, decIdx int, enabled []int) {
 		for i := len(s.trace) - 1; i >= 0; i-- {
 			r := s.trace[i]
 			if r.op.obj != op.obj || r.tid == t.id {
+				continue
+			}
+			if op.kind == "lock" && r.op.kind == "unlock" {
+				// a Lock is never co-enabled with the Unlock that frees the mutex: the transition it races with is the
+				// Lock that opened that critical section (running us before the Unlock would only park us)
 				continue
 			}
 			if r.vc[r.tid] <= t.vc[r.tid] {
